@@ -56,6 +56,8 @@ func checkC15(c *Ctx) {
 
 	// ---- R2 raw buffers are never written
 	ruleRawBuffersReadOnly(c, "C15-R2", reach)
+	// ---- R3 (continued) display code does not rearrange a decoded slice in place (`s[:0]` + append)
+	ruleNoInPlaceAppend(c, "C15-R3", reach)
 	// ---- R8 no result depends on the iteration order of a map
 	ruleNoMapOrder(c, "C15-R8", reach)
 	// ---- R3 display stores
@@ -751,5 +753,71 @@ func ruleNoMapOrder(c *Ctx, rule string, fns map[*ssa.Function]bool) {
 	c.Check(control >= 1, rule, "positive-control(sorted map walk)", token.NoPos, fmt.Sprintf("the detector recognises %d collect-and-sort map walks in the module", control), "the map-range detector does not see the module's sorted map walk (it would pass vacuously)")
 	if n == 0 {
 		c.OK(rule, "map-order", token.NoPos, fmt.Sprintf("no range over a map in the %d functions of the decode/display path", len(fns)))
+	}
+}
+
+// ruleNoInPlaceAppend: `filtered := s[:0]; … filtered = append(filtered, x)` (and any append to a truncated
+// view s[:k]) writes over the elements of s.  Accepted only when s is a slice built in the same function.
+func ruleNoInPlaceAppend(c *Ctx, rule string, fns map[*ssa.Function]bool) {
+	P := c.P
+	bad := 0
+	// the slice an append chain starts from
+	var origin func(v ssa.Value, depth int) ssa.Value
+	origin = func(v ssa.Value, depth int) ssa.Value {
+		if depth > 6 {
+			return v
+		}
+		switch x := v.(type) {
+		case *ssa.Phi:
+			for _, e := range x.Edges {
+				if call, ok := e.(*ssa.Call); ok {
+					if b, ok := call.Call.Value.(*ssa.Builtin); ok && b.Name() == "append" {
+						continue // the loop-carried edge
+					}
+				}
+				return origin(e, depth+1)
+			}
+		case *ssa.Call:
+			if b, ok := x.Call.Value.(*ssa.Builtin); ok && b.Name() == "append" {
+				return origin(x.Call.Args[0], depth+1)
+			}
+		}
+		return v
+	}
+	for fn := range fns {
+		eachInstr(fn, func(ins ssa.Instruction) {
+			call, ok := ins.(*ssa.Call)
+			if !ok {
+				return
+			}
+			b, ok := call.Call.Value.(*ssa.Builtin)
+			if !ok || b.Name() != "append" || len(call.Call.Args) != 2 {
+				return
+			}
+			sl, ok := origin(call.Call.Args[0], 0).(*ssa.Slice)
+			if !ok || sl.High == nil {
+				return
+			}
+			if _, isArr := sl.X.Type().Underlying().(*types.Pointer); isArr {
+				return // a local array used as scratch space
+			}
+			if st, ok := sl.X.Type().Underlying().(*types.Slice); ok {
+				if bt, ok := st.Elem().Underlying().(*types.Basic); ok && bt.Kind() == types.Byte {
+					return // byte buffers: rule raw-buffers-read-only
+				}
+			}
+			r := root(sliceBase(sl.X))
+			if isFreshSlice(r) {
+				return
+			}
+			if _, isMk := r.(*ssa.MakeSlice); isMk {
+				return
+			}
+			bad++
+			c.Fail(rule, "in-place-append("+P.FnKey(fn)+")", call.Pos(), "refuted", "append to a truncated view of a slice that was not built here overwrites its elements: the decoded message (and everything that points into it) changes when this code runs")
+		})
+	}
+	if bad == 0 {
+		c.OK(rule, "no-in-place-append", token.NoPos, fmt.Sprintf("no append to a truncated view of a foreign slice in %d functions", len(fns)))
 	}
 }
